@@ -1,5 +1,5 @@
 def extend(add, NA, SIMNOTE):
-    for prop in ('C04', 'C19'):
+    for prop in ('C04',):
         NA[prop] = 'TEMPORARY: simulation check designed (DESIGN.md section 4) but not built yet; will be claimed once the check exists.'
     add('C14', 'fault_enumeration',
         'Seeded histories of write_env / crash at byte k / short writes with EIO or ENOSPC / failing opens / direct damage / restart / read_env judged against a reference model of the per-task files, '
@@ -13,3 +13,9 @@ def extend(add, NA, SIMNOTE):
         'seeded histories of 8-30 (listing, offset) pairs over the whole corpus in one reader process cover "whatever was parsed earlier in the same process".',
         'Trusted: the crash model (byte prefix), the deep comparison in vsim/deepeq.py, the narrow relaxations listed in the evidence assumptions (run_data describes the whole file; a time printed after the end flag may be missing but not different). The corpus is the shipped examples plus synthetic multi-edition listings; other listing layouts are not covered.',
         'deterministic simulation of writer crash points (byte-prefix enumeration) with fresh-process reference parses', 'DESIGN.md 4 C11', 'vsim-faultfs')
+    add('C19', 'exploration',
+        'Seeded simulated runs of jobs of RunTasks (from_cli, from_clis, RunTaskFactory.make) on the real queue backend with the subprocess seam bound to a scripted process table '
+        '(exit statuses including signals, text on both streams written to the file descriptors, durations, start-up failures, valid and invalid task names), 5% of the runs on the real subprocess.call with /bin/sh; '
+        'statuses, commands actually started, return codes, captured files and per-task directories are compared with a reference model under many interleavings of 1-4 workers.',
+        SIMNOTE + ' The process stub writes with os.write on the descriptors it is given, like a child process.',
+        'deterministic simulation: scripted process table behind the subprocess seam + thread simulator + reference model', 'DESIGN.md 4 C19', 'vsim-threads')
